@@ -42,6 +42,7 @@ type World struct {
 	constSlices map[*types.Var]*string
 	pureResult  map[string]Sort
 	opaqueInvs  map[string]bool
+	typeOfPred  map[string]types.Type // hasType$... predicate -> Go type
 }
 
 func NewWorld(root string) *World {
